@@ -1,6 +1,6 @@
 SPECIFICATION Spec
 CONSTANTS FixUnprotect = TRUE  FixFragCount = TRUE  GeckoPadCheck = TRUE  TcpAddrCheck = TRUE
-  UDPLenCheck = FALSE  PunchMin = 33  FeedIdxCheck = TRUE  Mode = "all"  MaxSteps = 4
+  UDPLenCheck = FALSE  PunchMin = 33  FeedIdxCheck = TRUE  Mode = "shapes"  Only = "udpmsg"  MaxSteps = 4
 INVARIANT NoViolation
 VIEW View
 CHECK_DEADLOCK FALSE
